@@ -226,6 +226,26 @@ func c19diff(c *Ctx) {
 			}
 			return b
 		}
+		// results that are COPIES by the API's contract (ReadBytes, ReadString, String, the caller's buffer of Read) are kept
+		// and compared again after every later operation: a later write, rewind or reallocation must not change them
+		type kept struct {
+			op   string
+			step int
+			b    []byte // the returned slice itself (nil for strings)
+			s    string // the returned string itself
+			snap string // its contents when it was returned
+		}
+		var retained []kept
+		keep := func(op string, b []byte, str string) {
+			e := kept{op: op, step: len(hist), b: b, s: str, snap: str}
+			if b != nil {
+				e.snap = string(b)
+			}
+			retained = append(retained, e)
+			if len(retained) > 12 {
+				retained = retained[len(retained)-12:]
+			}
+		}
 		for k := 0; k < nops; k++ {
 			var name string
 			var fa, fb func(b bufAPI) (string, error)
@@ -257,6 +277,9 @@ func c19diff(c *Ctx) {
 					if m < 0 || m > n {
 						return fmt.Sprintf("%d (out of range)", m), err
 					}
+					if m > 0 {
+						keep("Read", p[:m], "")
+					}
 					return fmt.Sprintf("%d %x", m, clipB(p[:m], 64)), err
 				})
 			case 5:
@@ -274,12 +297,18 @@ func c19diff(c *Ctx) {
 				d := gen.Pick(r, []byte{'\n', 'a', 0, 0xff, ' '})
 				one(fmt.Sprintf("ReadBytes(%#x)", d), func(b bufAPI) (string, error) {
 					p, err := b.ReadBytes(d)
+					if len(p) > 0 {
+						keep("ReadBytes", p, "")
+					}
 					return fmt.Sprintf("%d %x", len(p), clipB(p, 64)), err
 				})
 			case 11:
 				d := gen.Pick(r, []byte{'\n', 'a', 0, 0xff, ' '})
 				one(fmt.Sprintf("ReadString(%#x)", d), func(b bufAPI) (string, error) {
 					s, err := b.ReadString(d)
+					if len(s) > 0 {
+						keep("ReadString", nil, s)
+					}
 					return fmt.Sprintf("%d %x", len(s), clipB([]byte(s), 64)), err
 				})
 			case 12:
@@ -323,6 +352,9 @@ func c19diff(c *Ctx) {
 			case 19:
 				one("String()", func(b bufAPI) (string, error) {
 					s := b.String()
+					if len(s) > 0 {
+						keep("String", nil, s)
+					}
 					return fmt.Sprintf("%d %x", len(s), clipB([]byte(s), 64)), nil
 				})
 			default:
@@ -357,8 +389,17 @@ func c19diff(c *Ctx) {
 				fail("state", opn, fmt.Sprintf("after step %d %s: bytes.Buffer holds %d bytes, PrintCtx %d; contents equal: %v", k, name, pb.Len(), pc.Len(), pb.String() == pc.String()))
 				return
 			}
-			var nilPC *slog.PrintCtx
-			_ = nilPC
+			for _, e := range retained {
+				now := e.s
+				if e.b != nil {
+					now = string(e.b)
+				}
+				c.R.Add("retained_results_rechecked", 1)
+				if now != e.snap {
+					fail("retained-result", e.op, fmt.Sprintf("the %d bytes returned by %s at step %d have changed after step %d %s (a result the caller owns aliases the buffer): was %x, is %x", len(e.snap), e.op, e.step, k, name, clipB([]byte(e.snap), 48), clipB([]byte(now), 48)))
+					return
+				}
+			}
 		}
 		c.R.NonTrivial(sdesc, strings.Join(hist, ";"))
 		if c.R.WantSample() && len(hist) > 5 && len(hist) < 25 {
